@@ -247,6 +247,22 @@ def rule_POSW(ctx):
     m = ctx.m
     r = RuleResult('POSW', 'every _pos write is a constant 0, the length, a validated/restored/found position or a bounded increment')
     n = 0
+    E = get_effects(ctx)
+    # a _pos write on a local that may BE the receiver (callee can return self) moves the receiver's position
+    movers = {'find', 'rfind', 'readto', 'read', 'readlist', 'bytealign'}
+    for c in STREAMS:
+        for name, f in public_roots(ctx, c):
+            if name in movers or f.cls not in STREAMS:
+                continue
+            node = ctx.node(f, c)
+            maybe = E.maybe_self_locals(node)
+            for st in _pos_stores(f):
+                if isinstance(st.value, ast.Name) and st.value.id in maybe:
+                    r.fail(f.key, f'{c}.{name}: {norm(st)} on a possible alias of self', f"in {c}.{name} the object '{st.value.id}' can be the receiver itself "
+                           '(the call it comes from may return self), so assigning its _pos moves the position of the operand of a non-moving operation',
+                           loc=f.loc(st), extra={'ctx': c})
+                else:
+                    r.ok(None)
     for f in m.funcs.values():
         if f.mod != 'bitstream' and not _pos_stores(f):
             continue
@@ -289,6 +305,21 @@ B1_REASONS = {
     'reverse': 'whole-store reverse or equal-length slice assignment', 'rol': 'deletes k bits and re-inserts the same k bits',
     'ror': 'deletes k bits and re-inserts the same k bits',
 }
+
+
+def _unhandled_effects(ctx, E, node, stack=()):
+    """Self effects of ``node`` that are not reached through a stream-class function which itself updates _pos."""
+    if node in stack:
+        return set()
+    f = ctx.m.funcs[node[0]]
+    if f.cls in STREAMS and (_pos_stores(f) or any(isinstance(x, ast.Call) and ast.unparse(x.func) == 'self._clear' for x in own_walk(f.node))):
+        return set()
+    edges, selfname = E.edges(node)
+    out = {(e.kind, node[0], e.detail) for e in E.direct(node) if e.root == selfname and e.kind in ('install', 'inplace')}
+    for (cn, root, cs) in edges:
+        if root is not None and root == selfname:
+            out |= _unhandled_effects(ctx, E, cn, stack + (node,))
+    return out
 
 
 def _effect_without_pos_update(ctx, E, node, f):
@@ -369,10 +400,9 @@ def rule_B1(ctx):
                        f"({norm(leak)[:50]}): if the length changed, pos can end up beyond it", loc=f.loc(leak), extra={'props': ['C06', 'C20']})
             else:
                 r.ok(f'{c}.{name}', {'instance': f'{c}.{name}', 'handled_by': f.key})
-        elif f.cls in STREAMS and name in ('clear',):
-            r.ok(f'{c}.{name}')
-        elif name == 'clear' and any(g.cls in STREAMS for g in m.winner(c, '_clear')):
-            r.ok(f'{c}.{name}', {'instance': f'{c}.clear', 'handled_by': 'ConstBitStream._clear'})
+        elif not _unhandled_effects(ctx, E, node):
+            # every effect is reached through a stream-level function that updates _pos (e.g. clear -> ConstBitStream._clear)
+            r.ok(f'{c}.{name}', {'instance': f'{c}.{name}', 'handled_by': 'stream-level callee that updates _pos'})
         elif name in B1_REASONS:
             r.ok(f'{c}.{name}', reason=True, sample={'instance': f'{c}.{name}', 'reason': B1_REASONS[name]})
         else:
